@@ -763,11 +763,11 @@ def G8(ctx: Ctx) -> RuleResult:
     else:
         r.ok('hpl_file: one or more hpl_property children, in source order')
     # source order: the list rule (if any) is left- or right-recursive with the single property on the other side, never reordered by lark
-    # the kinds of annotation: the alternatives reachable from the item list, each named by its callback (a rule of its
-    # own, or an alternative of one rule with an alias) and keyed by its leading keyword
+    # the kinds of annotation: the alternatives reachable from the `metadata` rule (through list / helper / inline
+    # rules) that begin with a keyword, each named by its callback (a rule of its own, or an alternative with an alias)
     keys = {}
     seen_nt: Set[str] = set()
-    todo = [n_ for e in v.rules_of('_metadata_items') for n_, is_t, _ in e.symbols if not is_t and n_ != '_metadata_items']
+    todo = ['metadata']
     while todo:
         nt = todo.pop()
         if nt in seen_nt:
@@ -775,10 +775,10 @@ def G8(ctx: Ctx) -> RuleResult:
         seen_nt.add(nt)
         for e in v.rules_of(nt):
             first = e.symbols[0][0] if e.symbols else None
-            if first in v.terminals and v.terminals[first].kind == 'str':
+            if first in v.terminals and v.terminals[first].kind == 'str' and v.terminals[first].value.isalpha():
                 keys[e.callback] = v.terminals[first].value
-            elif len(e.symbols) == 1 and not e.symbols[0][1]:
-                todo.append(e.symbols[0][0])
+                continue
+            todo.extend(n_ for n_, is_t, _ in e.symbols if not is_t)
     if keys == {'metadata_id': 'id', 'metadata_title': 'title', 'metadata_desc': 'description'}:
         r.ok(f'metadata keys: {keys}')
     else:
